@@ -227,6 +227,17 @@ func runGcLive(tr *hx.Trace, srv *fakeredis.Server, seed uint64, n, shard, shard
 	gc.Input.Redis.SetClusterShards([]*config.RedisClusterShard{{Master: config.RedisNode{Address: fs.ln.Addr().String()}}})
 	gc.Output.Redis.SetClusterShards([]*config.RedisClusterShard{{Master: config.RedisNode{Address: srv.Addr()}}})
 	sc := cmd.NewSyncerCmd()
+	// a second source shard (always reachable, with an id of its own) and the address of a node that is down
+	fsOther := startInfoSource()
+	defer fsOther.ln.Close()
+	fsOther.id1, fsOther.id2 = idOther, strings.Repeat("0", 40)
+	deadLn, err := hx.Listen()
+	if err != nil {
+		hx.Fatal("%v", err)
+	}
+	deadAddr := deadLn.Addr().String()
+	deadLn.Close()
+	oneShard := []*config.RedisClusterShard{{Master: config.RedisNode{Address: fs.ln.Addr().String()}}}
 	runs := 0
 	var samples []interface{}
 	id := 5000000 + shard
@@ -250,8 +261,18 @@ func runGcLive(tr *hx.Trace, srv *fakeredis.Server, seed uint64, n, shard, shard
 		// what the source reports: the checkpoint's id as current id, as previous id (fail-over not yet re-keyed), or not at all
 		// ... or ("raced") as current id to the collector, although the source has just failed over and a start of the link has
 		// moved the position to the new id: the collector's list of live ids is older than what it then reads on the target
-		report := []string{"current", "previous", "gone", "raced"}[r.Intn(4)]
+		// ... or ("shard-down") the source is a cluster of two shards and every node of the checkpoint's shard is unreachable
+		// while the collector runs (the other shard answers); afterwards the shard is back and reports the id as before
+		report := []string{"current", "previous", "gone", "raced", "shard-down"}[r.Intn(5)]
+		gc.Input.Redis.SetClusterShards(oneShard)
 		switch report {
+		case "shard-down":
+			fs.id1, fs.id2 = idOld, strings.Repeat("0", 40)
+			down := []*config.RedisClusterShard{{Master: config.RedisNode{Address: fsOther.ln.Addr().String()}}, {Master: config.RedisNode{Address: deadAddr}}}
+			if r.Bool() {
+				down[0], down[1] = down[1], down[0]
+			}
+			gc.Input.Redis.SetClusterShards(down)
 		case "raced":
 			fs.id1, fs.id2 = idOld, strings.Repeat("0", 40)
 		case "current":
@@ -275,9 +296,10 @@ func runGcLive(tr *hx.Trace, srv *fakeredis.Server, seed uint64, n, shard, shard
 		reqBase := srv.RecvCount()
 		sc.VerifGcStaleCheckpoint(context.Background())
 		gcReqs := srv.RecvCount() - reqBase
-		if gcReqs == 0 {
+		if gcReqs == 0 && report != "shard-down" {
 			hx.Fatal("the collector never reached the target (state %d)", i)
 		}
+		gc.Input.Redis.SetClusterShards(oneShard)
 		for j := 0; j < 2000 && srv.ConnCount() > 0; j++ {
 			time.Sleep(100 * time.Microsecond)
 		}
